@@ -193,7 +193,7 @@ def run(ctx):
             if hasattr(mod, c):
                 objs[c] = getattr(mod, c)()
     rcalls, rmeta = [], []
-    malformed = ['(assert (not))', '(assert (not (not)))', '(assert (bvneg))', '(assert (bvnot (bvnot)))', '(assert (= #b1 (bvcomp)))',
+    malformed = ['(assert (= #b #x))', '(assert (bvnot #b))', '(assert ((_ zero_extend 2) #x))', '(assert ((_ extract 0 0) #b))', '(assert (not))', '(assert (not (not)))', '(assert (bvneg))', '(assert (bvnot (bvnot)))', '(assert (= #b1 (bvcomp)))',
                  '(assert ((_ zero_extend 2)))', '(assert ((_ extract 1) #b01))', '(assert ((_ extract 5 2) #b01))', '(assert (ite (= a b)))',
                  '(assert ((_ zero_extend x) #b01))', '(assert (_ bvX 3))', '(assert ((_ sign_extend 1) ((_ sign_extend 1))))', '(assert (=>))',
                  '(assert (= false))', '(assert (xor a))', '(assert (not (< )))', '(assert ((_ extract 3 0) ((_ zero_extend 2))))']
